@@ -1,0 +1,90 @@
+//go:build verif
+
+package vgirpc
+
+import (
+	"github.com/apache/arrow-go/v18/arrow"
+	"github.com/apache/arrow-go/v18/arrow/array"
+	"github.com/apache/arrow-go/v18/arrow/memory"
+)
+
+// C06 — the lockstep stream contract. The framework-raised errors of one turn
+// (no data batch, second Emit, Finish on an exchange) and of the input cast
+// are obtained by running the compiled OutputCollector / castRecordBatch on
+// probe values, so the model is stated over what the code produces.
+
+func verifInt64Probe(schema *arrow.Schema, ncols int) arrow.RecordBatch {
+	cols := make([]arrow.Array, ncols)
+	for i := range cols {
+		b := array.NewInt64Builder(memory.DefaultAllocator)
+		b.Append(1)
+		cols[i] = b.NewArray()
+		b.Release()
+	}
+	rec := array.NewRecordBatch(schema, cols, 1)
+	for _, c := range cols {
+		c.Release()
+	}
+	return rec
+}
+
+func init() {
+	verifConstProviders = append(verifConstProviders, func() []VerifConst {
+		i64 := arrow.PrimitiveTypes.Int64
+		schV := arrow.NewSchema([]arrow.Field{{Name: "v", Type: i64}}, nil)
+		schX := arrow.NewSchema([]arrow.Field{{Name: "x", Type: i64}}, nil)
+		schY := arrow.NewSchema([]arrow.Field{{Name: "y", Type: i64}}, nil)
+		schXZ := arrow.NewSchema([]arrow.Field{{Name: "x", Type: i64}, {Name: "z", Type: i64}}, nil)
+		schE := arrow.NewSchema(nil, nil)
+
+		errOf := func(prefix string, err error) []VerifConst {
+			if err == nil {
+				return []VerifConst{verifBytes(prefix+"_type", ""), verifBytes(prefix+"_msg", "")}
+			}
+			return []VerifConst{verifBytes(prefix+"_type", VerifExceptionType(err)), verifBytes(prefix+"_msg", err.Error())}
+		}
+
+		// validate() on a collector that saw no data batch
+		noData := newOutputCollector(schV, "", true).validate()
+
+		// a second Emit in one call
+		oc := newOutputCollector(schV, "", true)
+		_ = oc.Emit(verifInt64Probe(schV, 1))
+		second := verifInt64Probe(schV, 1)
+		twice := oc.Emit(second)
+		second.Release()
+		oc.releaseBatches()
+
+		// Finish on exchange / producer collectors
+		finEx := newOutputCollector(schV, "", false).Finish()
+		finProd := newOutputCollector(schV, "", true).Finish()
+		finProdOK := int64(0)
+		if finProd == nil {
+			finProdOK = 1
+		}
+
+		castErr := func(src *arrow.Schema, n int) error {
+			b := verifInt64Probe(src, n)
+			defer b.Release()
+			out, err := castRecordBatch(b, schX)
+			if err == nil && out != nil && out != b {
+				out.Release()
+			}
+			return err
+		}
+		empty := array.NewRecordBatch(schE, nil, 0)
+		_, castEmptyErr := castRecordBatch(empty, schX)
+		empty.Release()
+
+		var out []VerifConst
+		out = append(out, errOf("c06_no_data", noData)...)
+		out = append(out, errOf("c06_emit_twice", twice)...)
+		out = append(out, errOf("c06_finish_exchange", finEx)...)
+		out = append(out, verifNum("c06_finish_producer_ok", finProdOK))
+		out = append(out, errOf("c06_cast_badname", castErr(schY, 1))...)
+		out = append(out, errOf("c06_cast_extracol", castErr(schXZ, 2))...)
+		out = append(out, errOf("c06_cast_empty", castEmptyErr)...)
+		out = append(out, verifBytes("c06_meta_cancel", MetaCancel))
+		return out
+	})
+}
